@@ -4,6 +4,7 @@ package value
 
 import (
 	"github.com/whatap/golib/io"
+	"github.com/whatap/golib/util/hmap"
 	"github.com/whatap/golib/zzvf"
 )
 
@@ -78,4 +79,52 @@ func ZZ_C02_LongPayload() {
 	zzRoundTrip(NewBlobValue(p), append([]byte{VALUE_BLOB}, zzBlob(p)...), "blob-threshold")
 	zzRoundTrip(NewTextValue(string(p)), append([]byte{VALUE_TEXT}, zzBlob(p)...), "text-threshold")
 	zzvf.Reach("longpayload")
+}
+
+// int-keyed map whose backing table GROWS while it is filled (capacity 1 -> 3 -> 7),
+// with negative and extreme keys: every entry must still be found, encoded and decoded
+func ZZ_C02_IntMapAcrossGrowth() {
+	m := NewIntMapValue()
+	m.table = hmap.NewIntKeyLinkedMap(1+zzvf.Choose(3), 0.75) // growth 1->3->7, 2->5->11, 3->7
+	keys := [][]int32{{-1, 5, -2147483648, 2147483647}, {7, -7, 0, -100}}[zzvf.Choose(2)]
+	n := 2 + zzvf.Choose(3)
+	ref := append([]byte{INT_VALUE_MAP}, zzDec(int64(n))...)
+	vals := []int64{}
+	for i := 0; i < n; i++ {
+		v := int64(zzvf.IntRange(1, 100))
+		m.Put(keys[i], NewDecimalValue(v))
+		vals = append(vals, v)
+		ref = append(ref, zzBE(uint64(keys[i]), 4)...)
+		ref = append(append(ref, VALUE_DECIMAL), zzDec(v)...)
+	}
+	ok := true
+	for i := 0; i < n; i++ {
+		d, isD := m.Get(keys[i]).(*DecimalValue)
+		ok = zzvf.And(ok, zzvf.And(isD, d != nil && d.Val == vals[i]))
+	}
+	zzvf.Assert(ok, "intmap-growth/every-entry-found-after-growth")
+	// (not zzRoundTrip: its structural equality would compare the small table of the
+	// original with the default 101-slot table of the decoded map)
+	out := io.NewDataOutputX()
+	WriteValue(out, m)
+	b := out.ToByteArray()
+	zzvf.Assert(zzvf.Same(b, ref), "intmap-growth/bytes-equal-reference")
+	in := io.NewDataInputX(b)
+	d, isM := ReadValue(in).(*IntMapValue)
+	zzvf.Assert(isM, "intmap-growth/same-type-code")
+	if isM {
+		okD := d.Size() == n
+		en := d.Keys()
+		for i := 0; i < n; i++ {
+			okD = zzvf.And(okD, zzvf.And(en.HasMoreElements(), en.NextInt() == keys[i]))
+			dv, isD := d.Get(keys[i]).(*DecimalValue)
+			okD = zzvf.And(okD, zzvf.And(isD, dv != nil && dv.Val == vals[i]))
+		}
+		zzvf.Assert(okD, "intmap-growth/equal-content-and-order")
+		out2 := io.NewDataOutputX()
+		WriteValue(out2, d)
+		zzvf.Assert(zzvf.Same(out2.ToByteArray(), b), "intmap-growth/reencode-identical")
+	}
+	zzvf.Assert(in.Available() == 0, "intmap-growth/consumed-exactly")
+	zzvf.Reach("intmap-growth")
 }
